@@ -235,13 +235,27 @@ func setEnv(env map[string]string) {
 	}
 }
 
+// tstProvider: a provider that returns a value for ANY name handed to it (it does not validate names itself, as the stock
+// env provider happens to): what reaches it is decided by the resolver alone.
+type tstProvider struct{}
+
+func (tstProvider) Retrieve(_ context.Context, uri string, _ confmap.WatcherFunc) (*confmap.Retrieved, error) {
+	return confmap.NewRetrieved("val(" + strings.TrimPrefix(uri, "tst:") + ")")
+}
+func (tstProvider) Scheme() string                 { return "tst" }
+func (tstProvider) Shutdown(context.Context) error { return nil }
+
+// defaultScheme: "env" except for the cases of table TD (default scheme served by tstProvider)
+var defaultScheme = "env"
+
 func newResolver(uris []string, def bool) (*confmap.Resolver, error) {
 	set := confmap.ResolverSettings{
-		URIs:              uris,
-		ProviderFactories: []confmap.ProviderFactory{yamlprovider.NewFactory(), envprovider.NewFactory()},
+		URIs: uris,
+		ProviderFactories: []confmap.ProviderFactory{yamlprovider.NewFactory(), envprovider.NewFactory(),
+			confmap.NewProviderFactory(func(confmap.ProviderSettings) confmap.Provider { return tstProvider{} })},
 	}
 	if def {
-		set.DefaultScheme = "env"
+		set.DefaultScheme = defaultScheme
 	}
 	return confmap.NewResolver(set)
 }
@@ -330,6 +344,10 @@ func runCases(in, out string) error {
 			if cur != c.Tab {
 				setEnv(env)
 				cur = c.Tab
+			}
+			defaultScheme = "env"
+			if c.Tab == "TD" {
+				defaultScheme = "tst"
 			}
 			res.Cases++
 			res.Exp++
